@@ -47,6 +47,7 @@ const (
 	ErrAnnotationNotAllowed                  Code = 304
 	ErrEmptySetOfLexicalEvents               Code = 305
 	ErrIncorrectEndingOfTheLexicalEvent      Code = 306
+	ErrNestingTooDeep                        Code = 307
 
 	// Schema
 
@@ -223,6 +224,7 @@ var errorFormat = map[Code]string{
 	ErrAnnotationNotAllowed:                  "The annotation is not allowed here. The ANNOTATION cannot be placed on lines containing more than one EXAMPLE element to which the ANNOTATION may apply. For more information, please refer to: https://jsight.io/docs/jsight-schema-0-3#rules",
 	ErrEmptySetOfLexicalEvents:               "Empty set of found lexical events",
 	ErrIncorrectEndingOfTheLexicalEvent:      "Incorrect ending of the lexical event",
+	ErrNestingTooDeep:                        "Objects and arrays are nested deeper than %d levels",
 
 	// schema
 	ErrNodeGrow:                 "Node grow error",
